@@ -351,6 +351,35 @@ def fam_nested_twice(k):
     return libs
 
 
+def anon_block(x):
+    return """
+/// class of library %(x)s with a nested anonymous enum
+class N_%(x)s {
+__published:
+  N_%(x)s();
+  enum { an_%(x)s_p, an_%(x)s_q = 5, an_%(x)s_r };
+  int pick() const;
+};
+__begin_publish
+enum { top_%(x)s_a = 3, top_%(x)s_b };
+__end_publish
+""" % {"x": x}
+
+
+def fam_anon(k):
+    """fam_ref plus, in every library, an anonymous enum nested in a class and an anonymous
+    enum at namespace scope: types whose name and true name are empty must never be
+    identified with one another across libraries."""
+    libs = fam_ref(k)
+    for n, L in enumerate(libs):
+        fn = "u%s.h" % L.tag
+        if n != 1:                       # one library without a nested anonymous type
+            L.files[fn] += anon_block(L.tag)
+        else:
+            L.files[fn] += "__begin_publish\nenum { top_%s_a = 9 };\n__end_publish\n" % L.tag
+    return libs
+
+
 # ------------------------------------------------------------------ per-type record alphabet
 # For ONE shared true name every library's own record is one of
 #   absent | GF (global, fully defined) | G- (global, not fully defined)
@@ -410,13 +439,14 @@ def fam_records(kind):
 FAMILIES = [
     ("ref", fam_ref), ("fwd", fam_fwd), ("same", fam_same), ("diff", fam_diff),
     ("force", fam_force), ("global", fam_global), ("tpl", fam_tpl), ("kinds", fam_kinds),
+    ("anon", fam_anon),
     ("chain", fam_chain), ("enumdiff", fam_enumdiff), ("twoshared", fam_two_shared),
     ("nestedtwice", fam_nested_twice),
 ]
 
 SHARED_PROBE = {"ref": "S", "fwd": "Fwd", "same": "C", "diff": "C", "force": "S", "global": "P",
                 "tpl": "Box< int >", "kinds": "Multi", "chain": "A", "enumdiff": "Color",
-                "twoshared": "C", "nestedtwice": "S::Inner",
+                "twoshared": "C", "anon": "S", "nestedtwice": "S::Inner",
                 "rec-enum": "Color", "rec-class": "T"}
 
 
